@@ -73,3 +73,25 @@ pub struct Compile {
     /// The environment variables present when the compiler was executed, as (var, val).
     pub env_vars: Vec<(OsString, OsString)>,
 }
+
+/// Verification hooks: the exact (de)serialisation both ends of the socket use
+/// (`bincode::serialize` / `bincode::deserialize`), for an external harness.
+#[cfg(sccache_verif)]
+pub fn verif_decode_response(bytes: &[u8]) -> Option<Response> {
+    bincode::deserialize(bytes).ok()
+}
+
+#[cfg(sccache_verif)]
+pub fn verif_decode_request(bytes: &[u8]) -> Option<Request> {
+    bincode::deserialize(bytes).ok()
+}
+
+#[cfg(sccache_verif)]
+pub fn verif_encode_response(r: &Response) -> Vec<u8> {
+    bincode::serialize(r).expect("serialize response")
+}
+
+#[cfg(sccache_verif)]
+pub fn verif_encode_request(r: &Request) -> Vec<u8> {
+    bincode::serialize(r).expect("serialize request")
+}
